@@ -98,8 +98,29 @@ def history(rng, f, ch, kind_r):
     return L, marks, valid
 
 
+def regressions(ctx):
+    """second witness of the repaired KF-C09-CALC-SIGNAL-MAX-RET0 (the non-seekable read handle; the first, a write-only handle, is the
+    entry's own witness and runs in ctx.run_regressions): the refused call returns the error number it records"""
+    import os
+    from .core import VERIF
+    path = os.path.join(VERIF, "findings", "kf_c09_calc_signal_max_ret0_nsr.txt")
+    if not os.path.exists(path):
+        return False
+    text = open(path).read()
+    head, script = text.split("--- script", 1)
+    lines, rc, err = ctx.script(script.lstrip("\n"))
+    ctx.count(1, "regression:KF-C09-CALC-SIGNAL-MAX-RET0-nsr")
+    exp = [l[len("expect-last "):].strip() for l in head.split("\n") if l.startswith("expect-last ")]
+    if rc == 0 and lines and all(e in lines[-1] for e in exp):
+        return False
+    ctx.violation("regression-KF-C09-CALC-SIGNAL-MAX-RET0-nsr", "# the defect repaired by `fix: SFC_CALC_SIGNAL_MAX / SFC_CALC_NORM_SIGNAL_MAX returned 0 "
+                  "(success) when the scan was refused` is back\n# last transcript line now: %s\n%s" % (lines[-1] if lines else "(none, rc=%d)" % rc, text))
+    return True
+
+
 def run(ctx, quick=True):
     rng = ctx.rng
+    back = regressions(ctx)
     fs = [f for f in formats.writable_formats(ctx) if f.major != 0x16]
     # pass 0: which read handles are not seekable (one tiny file per format)
     probe = []
@@ -131,11 +152,9 @@ def run(ctx, quick=True):
         base.append((n, [k for k in range(len(L)) if k not in drop]))
     bs = ctx.batch([(n + "-base", "\n".join(L[k] for k in kept) + "\n") for (n, kept), (_, f, ch, L, marks, valid) in zip(base, jobs)], workers=6)
     st = ctx.notes.setdefault("command_failure_table", {"histories": 0, "inserted_calls": 0, "refused": 0, "valid_calc_calls": 0, "rows": 0,
-                                                       "non_seekable_read_handles": 0, "write_only_handles": 0, "known_finding_hits": 0})
+                                                       "non_seekable_read_handles": 0, "write_only_handles": 0})
     recs, who = [], {}
     found, reported = False, set()
-    kf = next((e for e in ctx.known if e["id"] == "KF-C09-CALC-SIGNAL-MAX-RET0" and e.get("status") == "known"), None)
-    kf_live = None
 
     def report(name, f, ch, kind, text, L, marks, upto, must=None):
         nonlocal found
@@ -172,15 +191,8 @@ def run(ctx, quick=True):
             r = refused(conv, out[k])
             st["refused"] += 1 if r else 0
             kv, kv2 = abscheck.parse_kv(out[k]), abscheck.parse_kv(out[k + 1])
-            # known finding: SFC_CALC_[NORM_]SIGNAL_MAX reports 0 with the error recorded (class: these two ids, a handle that cannot
-            # scan; signature: ret=0, err != 0)
-            if (not r and kf is not None and desc.endswith("on a handle that cannot scan") and L[k].split()[2] in ("1040", "1041")
-                    and kv.get("ret") == "0" and kv.get("err") not in ("0", None)):
-                if kf_live is None:
-                    kf_live = bool(ctx.witness_still_fails(kf))
-                if kf_live:
-                    st["known_finding_hits"] += 1
-                    r = True
+            # (KF-C09-CALC-SIGNAL-MAX-RET0 -- SFC_CALC_[NORM_]SIGNAL_MAX answered 0 with the error recorded -- is repaired: no class is
+            #  waived in this table any more; its two witnesses are regressions, see `regressions` below)
             ls.append("ins k=%d must=1 refused=%d err=%s msglen=%s" % (k, 1 if r else 0, kv.get("err", "0") or "0", kv2.get("msglen", "-1") or "-1"))
             # a refused command leaves the caller's block alone
             d = kv.get("data", "")
@@ -199,8 +211,6 @@ def run(ctx, quick=True):
             ls.append(c09twin._ess(L[k], out[k], ch))
         recs.append("\n".join(ls) + "\n")
         who[name] = (f, ch, L, marks, out, kept, bout)
-    if kf_live:
-        ctx.known_finding(kf)
     verdicts, rc, err = c09twin.run_driver(ctx, "".join(recs))
     if rc != 0 or len(verdicts) != len(who):
         ctx.violation("c09cmdfail-driver", "sfmodel abs-twin failed: rc=%d, %d verdicts for %d records; %s" % (rc, len(verdicts), len(who), err), no_input=True)
@@ -222,4 +232,4 @@ def run(ctx, quick=True):
             bi = kept.index(k)
             report(name, f, ch, "a refused command changed the %s" % {"state": "handle state", "file": "closed file", "reopen": "re-opened file"}.get(clause, clause),
                    "line `%s` answers `%s` with the refused commands, `%s` without them" % (L[k][:60], out[k][:200], bout[bi][:200]), L, marks, k + 1)
-    return found
+    return found or back
